@@ -339,6 +339,9 @@ def run(ctx):
         for _pc, t, node, _st in hs_.returns:
             if node is not None and isinstance(node.value, ast.Name):
                 ret_names.add(node.value.id)
+            elif node is not None and isinstance(node.value, ast.Call) and isinstance(node.value.func, ast.Name) and node.value.func.id in ("list", "tuple") \
+                    and len(node.value.args) == 1 and isinstance(node.value.args[0], ast.Name) and not node.value.keywords:
+                ret_names.add(node.value.args[0].id)          # (`return list(valid)`: a copy of the list is that list)
         for a in appends:
             if not (isinstance(a.func.value, ast.Name) and a.func.value.id in ret_names):
                 continue
@@ -376,6 +379,7 @@ def run(ctx):
     for _pc, _t, _n, rst in gs.returns:
         sup = rst.env.get(f"{g.params[0]}._supported")
     rets = [strip(t) for _pc, t, n, _st in gs.returns if n is not None]
+    rets = [strip(r[2][0]) if r[0] == "call" and r[1] in (("ext", "list"), ("ext", "tuple")) and len(r[2]) == 1 and not r[3] else r for r in rets]          # (a copy of the list is that list)
     sup_ok = sup is not None and len(set(rets)) == 1 and rets[0][0] in ("loopvar", "mut", "list", "ite", "comp") and any(strip(x) == rets[0] for x in subterms(sup))
     if sup_ok:
         # ... and of nothing else: not of the raw frames, not of an earlier exchange (the previous flag, other device state)
